@@ -214,7 +214,7 @@ def _builder_map(prog, fnp, tx_owners, pset_owner):
 
 
 
-def _presence_table(prog, fnpath, base_re, fields):
+def _presence_table(prog, fnpath, base_re, fields, agg="transaction::TxOut::TxOut", comps=("asset", "value")):
     """For the TxOut literal built in `fnpath`: which variant the asset/value component takes for every presence
     pattern of the PSET output's (commitment, explicit) fields. Handles both the `match (comm, explicit)` form (branches
     in the listing) and the Option-combinator form (`comm.map(C).or(expl.map(E)).unwrap_or_default()`)."""
@@ -285,9 +285,9 @@ def _presence_table(prog, fnpath, base_re, fields):
             for t in ([s_[1]] if s_[0] == "ret" else list(s_[2]) if s_[0] == "do" else [s_[2]] if s_[0] in ("set", "store") else []):
                 from ..mir import walk_term
                 for x in walk_term(t):
-                    if isinstance(x, tuple) and x and x[0] == "agg" and x[1] == "transaction::TxOut::TxOut":
+                    if isinstance(x, tuple) and x and x[0] == "agg" and x[1] == agg:
                         comp = dict(zip(x[2], x[3]))
-                        return {k_: ev(comp[k_], env, vars_) for k_ in ("asset", "value")}
+                        return {k_: ev(comp[k_], env, vars_) for k_ in comps}
         return None
 
     table = {}
@@ -348,6 +348,19 @@ def _mapping(c, prog):
             bad_s.append((bits, got, got2))
     c.inst("R3.source-priority", "Output::to_txout: commitment wins over the explicit field, for asset and value (16 presence patterns)", not bad_t, "deviations %s" % bad_t[:3], Ft.f.where(), Ft.f.path)
     c.inst("R3.source-priority", "extract_tx: commitment wins over the explicit field; neither present is an error (16 presence patterns)", not bad_e, "deviations %s" % bad_e[:3], Fe_.f.where(), Fe_.f.path)
+    # the issuance view of an input (feeds extract_tx, hence the unique id and both issuance-id computations)
+    IF = ("issuance_value_comm", "issuance_value_amount", "issuance_inflation_keys_comm", "issuance_inflation_keys")
+    Fi, ti = _presence_table(prog, "pset::map::input::Input::asset_issuance", r"arg1", IF, agg="transaction::AssetIssuance::AssetIssuance", comps=("amount", "inflation_keys"))
+    bad_i = []
+    for bits in sorted(ti):
+        vc, v, kc, k_ = bits
+        exp = ("Confidential" if vc else "Explicit" if v else "Null", "Confidential" if kc else "Explicit" if k_ else "Null")
+        g = ti[bits]
+        got = (g["amount"][1], g["inflation_keys"][1]) if isinstance(g, dict) else g
+        if got != exp:
+            bad_i.append((bits, got))
+    c.inst("R3.source-priority", "Input::asset_issuance: commitment wins over the explicit field, for the issued amount and the inflation keys (16 presence patterns)",
+           not bad_i, "deviations %s" % bad_i[:3], Fi.f.where(), Fi.f.path)
     c.inst("R3.source-priority", "both views choose the same source on every pattern where both produce an output", not bad_s, "deviations %s" % bad_s[:3], Ft.f.where(), Ft.f.path)
     # sibling agreement: Output::to_txout vs the output half of extract_tx
     ft, tmap = _struct_return_map(prog, OUTPUT + "::to_txout", [OUTPUT])
